@@ -122,6 +122,11 @@ func (c *Ctx) Case(key string, nontrivial bool, tags ...string) {
 }
 
 func (c *Ctx) Fail(witness, what string) {
+	for _, f := range c.Failures {
+		if f.Witness == witness {
+			return // one entry per distinct witness (class witnesses repeat)
+		}
+	}
 	if len(c.Failures) < 200 {
 		c.Failures = append(c.Failures, Failure{Witness: witness, What: what})
 	}
